@@ -122,22 +122,69 @@ func parseFrame(idx int, o OutRec) Frame {
 	return f
 }
 
-// parseFrames maps every output event to a frame and attaches the render cycle.
+// parseFrames turns the output events into frames and attaches the render cycle.
+// A frame is what one render cycle wrote: the writes that fall between a
+// render.begin and the following render.end hook (all three happen on the
+// container goroutine, so the logical clock orders them exactly) are joined,
+// however the library chose to chunk them; the properties speak of frames and
+// bytes, never of Write calls. Writes outside any cycle stay on their own;
+// zero-length writes carry nothing and are dropped.
 func parseFrames(outs []OutRec, hooks []HookRec) []Frame {
-	var begins []int64
+	var begins, ends []int64
 	for _, h := range hooks {
-		if h.P == hpRenderBegin {
+		switch h.P {
+		case hpRenderBegin:
 			begins = append(begins, h.T)
+		case hpRenderEnd:
+			ends = append(ends, h.T)
 		}
 	}
-	frames := make([]Frame, 0, len(outs))
+	// cycleOf: index of the cycle whose [begin, end] interval holds t, else -1
+	cycleOf := func(t int64) int {
+		lo, hi := 0, len(begins)
+		for lo < hi {
+			m := (lo + hi) / 2
+			if begins[m] < t {
+				lo = m + 1
+			} else {
+				hi = m
+			}
+		}
+		c := lo - 1
+		if c < 0 {
+			return -1
+		}
+		if c < len(ends) && ends[c] < t {
+			return -1
+		}
+		return c
+	}
+	var merged []OutRec
+	var cyc, within []int
 	bi := 0
-	for i, o := range outs {
-		f := parseFrame(i, o)
+	for _, o := range outs {
+		if len(o.B) == 0 && !o.Failed {
+			continue
+		}
+		c := cycleOf(o.T0)
 		for bi < len(begins) && begins[bi] < o.T0 {
 			bi++
 		}
-		f.Cycle = bi - 1
+		if n := len(merged); c >= 0 && n > 0 && within[n-1] == c {
+			m := &merged[n-1]
+			m.B = append(append([]byte(nil), m.B...), o.B...)
+			m.T1 = o.T1
+			m.Failed = m.Failed || o.Failed
+			continue
+		}
+		merged = append(merged, o)
+		cyc = append(cyc, bi-1)
+		within = append(within, c)
+	}
+	frames := make([]Frame, 0, len(merged))
+	for i, o := range merged {
+		f := parseFrame(i, o)
+		f.Cycle = cyc[i]
 		frames = append(frames, f)
 	}
 	return frames
